@@ -101,6 +101,14 @@ func (pc *PartitionContext) VerifStopManager() {
 
 var verifStoppedManagers sync.Map
 
+// VerifForgetManagers drops the bookkeeping of VerifStopManager for the partitions of this context, so that a context
+// that is no longer used can be garbage collected.
+func (cc *ClusterContext) VerifForgetManagers() {
+	for _, pc := range cc.GetPartitionMapClone() {
+		verifStoppedManagers.Delete(pc.partitionManager)
+	}
+}
+
 // VerifCleanQueues runs one iteration of the queue cleaner of the partition manager.
 func (pc *PartitionContext) VerifCleanQueues() {
 	pc.partitionManager.cleanQueues(pc.root)
